@@ -48,6 +48,15 @@ pub fn build_pth(nodes: usize, pattern: usize) -> FileCase {
 }
 
 pub fn build_smx(objects: usize, points: usize, triangles: usize, checkpoints: usize, pattern: usize, track: &[u8]) -> FileCase {
+    let sizes: Vec<(usize, usize)> = vec![(points, triangles); objects];
+    let mut f = build_smx_mixed(&sizes, checkpoints, pattern, track);
+    f.name = format!("smx objects={objects} points={points} triangles={triangles} checkpoints={checkpoints} pattern={pattern} track={:?}", String::from_utf8_lossy(track));
+    f
+}
+
+/// ... with objects of different sizes: (points, triangles) per object
+pub fn build_smx_mixed(sizes: &[(usize, usize)], checkpoints: usize, pattern: usize, track: &[u8]) -> FileCase {
+    let objects = sizes.len();
     let mut b = b"LFSSMX".to_vec();
     b.extend_from_slice(&[pattern as u8, 2, 0, 3, 1, 1]);
     b.extend_from_slice(&[0; 4]);
@@ -59,6 +68,7 @@ pub fn build_smx(objects: usize, points: usize, triangles: usize, checkpoints: u
     let mut counts = vec![b.len()];
     b.extend_from_slice(&(objects as i32).to_le_bytes());
     for o in 0..objects {
+        let (points, triangles) = sizes[o];
         for k in 0..4 {
             let v: i32 = match pattern { 0 => 0, 1 => (o * 10 + k) as i32 + 1, _ => [i32::MIN, i32::MAX, -1, 65536][k] };
             b.extend_from_slice(&v.to_le_bytes());
@@ -87,7 +97,7 @@ pub fn build_smx(objects: usize, points: usize, triangles: usize, checkpoints: u
         b.extend_from_slice(&v.to_le_bytes());
     }
     FileCase {
-        name: format!("smx objects={objects} points={points} triangles={triangles} checkpoints={checkpoints} pattern={pattern} track={:?}", String::from_utf8_lossy(track)),
+        name: format!("smx objects with (points, triangles) = {sizes:?} checkpoints={checkpoints} pattern={pattern} track={:?}", String::from_utf8_lossy(track)),
         smx: true, bytes: b, counts, canonical: true,
     }
 }
@@ -249,6 +259,33 @@ pub fn sites(tier: Tier) -> Vec<Site> {
                             acc.class("round-trips");
                             acc.nontrivial();
                         }
+                    },
+                }
+            }));
+    }
+    // objects of different sizes in one file, some of them beyond 64 KiB (4095 points = 65 544 bytes): every sequence of
+    // up to three objects over 7 sizes
+    {
+        let sz: [(usize, usize); 7] = [(0, 0), (1, 1), (3, 2), (4094, 1), (4095, 0), (4096, 3), (100, 8200)];
+        let n = 7u64 + 49 + 343;
+        sites.push(Site::new("mixed-sizes", n,
+            "SMX files with every sequence of 1..=3 objects over 7 sizes (empty, tiny, 4094 / 4095 / 4096 points - either side of 64 KiB -, 8200 triangles): parsed, written back byte for byte",
+            move |i, acc| {
+                mark(7, i);
+                acc.eval();
+                let (l, mut j) = if i < 7 { (1, i) } else if i < 56 { (2, i - 7) } else { (3, i - 56) };
+                let mut sizes = vec![];
+                for _ in 0..l { sizes.push(sz[(j % 7) as usize]); j /= 7; }
+                let f = build_smx_mixed(&sizes, 2, 1, b"Rockingham");
+                let replay = json!({"site": "mixed-sizes", "index": i, "file": f.name});
+                match guard(|| parse_and_write(true, &f.bytes)) {
+                    Err(pn) => acc.violate(i, "C17|SMX|panic|valid-file".into(), format!("{}: {pn}", f.name), replay),
+                    Ok(Err(e)) => acc.violate(i, "C17|SMX|valid-file-rejected".into(), format!("{}: {e}", f.name), replay),
+                    Ok(Ok((_, written))) => {
+                        if written != f.bytes {
+                            let off = written.iter().zip(&f.bytes).position(|(a, b)| a != b).unwrap_or(written.len().min(f.bytes.len()));
+                            acc.violate(i, "C17|SMX|canonical-file-not-reproduced".into(), format!("{}: written bytes differ from the bytes read at offset {off} ({} vs {} bytes)", f.name, written.len(), f.bytes.len()), replay);
+                        } else { acc.class("mixed-sizes-round-trip"); acc.nontrivial(); }
                     },
                 }
             }));
@@ -678,7 +715,7 @@ pub fn run(tier: Tier, replay: Option<String>) -> i32 {
         Some(c @ (0 | 1)) => c,
         other => {
             // the sweep died: find the case(s) in flight and re-run each in its own process
-            let names = ["round-trip", "truncation", "substitution", "count-sweep", "short-reads", "stream-position", "count-grid"];
+            let names = ["round-trip", "truncation", "substitution", "count-sweep", "short-reads", "stream-position", "count-grid", "mixed-sizes"];
             let raw = std::fs::read(&slots).unwrap_or_default();
             let mut pinned = 0;
             let mut tried = 0u64;
